@@ -175,6 +175,10 @@ pub struct Case {
     /// Debug configs: the probed field carries `#[debug(transparent)]`
     pub dtransparent: bool,
     pub entry: Entry,
+    /// 0: the item has the type parameter `T`; 1: only a lifetime parameter (`T` spelled `&'a u8`); 2: no parameter
+    /// at all (`T` spelled `u8`) - no field type mentions a type parameter, so no default bound exists, but the
+    /// item's own where-clause and every explicit `bound(..)` contribution must still arrive
+    pub nogen: u8,
     pub attr: String,
     pub item: String,
 }
@@ -558,8 +562,41 @@ fn gen(ch: &mut Ch, cfgs: &[Config], plan: &Plan) -> Option<Case> {
     if mode == 2 && plan.full3.contains(&cfg.name.as_str()) && opts.iter().all(|o| Opt::THREE.contains(o)) {
         return None;
     }
+    let nogen = ch.pick(3) as u8;
+    if nogen != 0 && !(mode == 0 && key_on.is_none() && !dvalue && !dtransparent && dev <= plan.max_dev - 1) {
+        return None;
+    }
     let (attr, item) = render(cfg, &opts, key_on, key_on2, dvalue, dtransparent);
-    Some(Case { cfg: ci, vector: ch.vector(), opts, key_on, key_on2, dvalue, dtransparent, entry, attr, item })
+    let (attr, item) = (spell_param(&attr, nogen), spell_param(&item, nogen));
+    Some(Case { cfg: ci, vector: ch.vector(), opts, key_on, key_on2, dvalue, dtransparent, entry, nogen, attr, item })
+}
+
+/// rewrites a text over the parameter `T` for the lifetime-only (1) / parameterless (2) variants
+fn spell_param(text: &str, nogen: u8) -> String {
+    if nogen == 0 {
+        return text.to_string();
+    }
+    let (decl, ty) = if nogen == 1 { ("X<'a>", "&'a u8") } else { ("X", "u8") };
+    let text = text.replace("X<T>", decl);
+    let b: Vec<char> = text.chars().collect();
+    let is_id = |c: char| c.is_alphanumeric() || c == '_';
+    let mut out = String::new();
+    for i in 0..b.len() {
+        if b[i] == 'T' && (i == 0 || !is_id(b[i - 1])) && (i + 1 == b.len() || !is_id(b[i + 1])) {
+            out.push_str(ty);
+        } else {
+            out.push(b[i]);
+        }
+    }
+    out
+}
+/// the same on a flattened predicate (tokens separated by single spaces)
+fn spell_param_flat(pred: &str, nogen: u8) -> String {
+    if nogen == 0 {
+        return pred.to_string();
+    }
+    let ty = expand::flat_of_str(if nogen == 1 { "&'a u8" } else { "u8" }).unwrap();
+    pred.split(' ').map(|t| if t == "T" { ty.clone() } else { t.to_string() }).collect::<Vec<_>>().join(" ")
 }
 
 #[derive(Debug)]
@@ -576,7 +613,11 @@ fn evaluate(cfg: &Config, c: &Case, templates: &BTreeMap<String, Vec<String>>) -
     };
     let mut per_trait = Vec::new();
     for (k, d) in cfg.derived.iter().enumerate() {
-        let exp = ref_bounds(cfg, &c.opts, c.key_on, c.key_on2, c.dvalue, c.dtransparent, d);
+        let mut exp = ref_bounds(cfg, &c.opts, c.key_on, c.key_on2, c.dvalue, c.dtransparent, d);
+        if c.nogen != 0 {
+            // no field type mentions a type parameter: there is no default bound
+            exp.retain(|e| !matches!(e, Exp::Field(_)));
+        }
         // I1: whether `#[partial_eq(bound(..))]` reaches Eq's where-clause is unspecified
         if d == "Eq" && cfg.slots.iter().enumerate().any(|(i, s)| s.kind == Kind::Helper("partial_eq".into()) && c.opts[i] != Opt::Absent) {
             per_trait.push(Ok(Vec::new()));
@@ -593,7 +634,7 @@ fn evaluate(cfg: &Config, c: &Case, templates: &BTreeMap<String, Vec<String>>) -
                 }
                 let mut v = Vec::new();
                 for (im, t) in impls.iter().zip(tpl.iter()) {
-                    v.push((concretise(&exp, t), expand::where_set(im)));
+                    v.push((concretise(&exp, t).into_iter().map(|p| spell_param_flat(&p, c.nogen)).collect(), expand::where_set(im)));
                 }
                 per_trait.push(Ok(v));
             }
@@ -620,6 +661,9 @@ fn describe(cfg: &Config, c: &Case) -> String {
     }
     if c.dtransparent {
         v.push("field:#[debug(transparent)]".into());
+    }
+    if c.nogen != 0 {
+        v.push(["", "item-with-lifetime-parameter-only", "item-without-parameters"][c.nogen as usize].into());
     }
     format!("[{}] {}", cfg.name, v.join(" "))
 }
@@ -662,8 +706,10 @@ pub fn run(ctx: &Ctx, rep: &mut Report) {
         let dvalue = cs["dvalue"].as_bool().unwrap_or(false);
         let key_on2 = cs["key_on2"].as_str().and_then(|k| Tr::ALL.iter().copied().find(|t| t.attr() == k));
         let dtransparent = cs["dtransparent"].as_bool().unwrap_or(false);
+        let nogen = cs["nogen"].as_u64().unwrap_or(0) as u8;
         let (attr, item) = render(&cfgs[ci], &opts, key_on, key_on2, dvalue, dtransparent);
-        let c = Case { cfg: ci, vector: vec![], opts, key_on, key_on2, dvalue, dtransparent, entry, attr, item };
+        let (attr, item) = (spell_param(&attr, nogen), spell_param(&item, nogen));
+        let c = Case { cfg: ci, vector: vec![], opts, key_on, key_on2, dvalue, dtransparent, entry, nogen, attr, item };
         let a = format!("{:?}", evaluate(&cfgs[ci], &c, &templates));
         let b = format!("{:?}", evaluate(&cfgs[ci], &c, &templates));
         assert_eq!(a, b, "replay observations differ between two runs");
@@ -717,7 +763,7 @@ pub fn run(ctx: &Ctx, rep: &mut Report) {
                 symptom: "expansion-failed".into(),
                 atoms: mk_atoms(None),
                 what: format!("{}: {}", describe(cfg, c), first_line(m)),
-                detail: json!({"vector": c.vector, "config": cfg.name, "opts": c.opts.iter().map(|o| Opt::ALL.iter().position(|x| x == o).unwrap()).collect::<Vec<_>>(), "key_on": c.key_on.map(|k| k.attr()), "key_on2": c.key_on2.map(|k| k.attr()), "dvalue": c.dvalue, "dtransparent": c.dtransparent, "entry": c.entry.name(), "attr": c.attr, "item": c.item, "observed": m}),
+                detail: json!({"vector": c.vector, "config": cfg.name, "opts": c.opts.iter().map(|o| Opt::ALL.iter().position(|x| x == o).unwrap()).collect::<Vec<_>>(), "key_on": c.key_on.map(|k| k.attr()), "key_on2": c.key_on2.map(|k| k.attr()), "dvalue": c.dvalue, "dtransparent": c.dtransparent, "nogen": c.nogen, "entry": c.entry.name(), "attr": c.attr, "item": c.item, "observed": m}),
                 standalone: None,
             }),
             Ok(ev) => {
@@ -727,7 +773,7 @@ pub fn run(ctx: &Ctx, rep: &mut Report) {
                             symptom: "trait-not-generated".into(),
                             atoms: mk_atoms(Some(d)),
                             what: format!("{} trait {}: {}", describe(cfg, c), d, first_line(m)),
-                            detail: json!({"vector": c.vector, "config": cfg.name, "opts": c.opts.iter().map(|o| Opt::ALL.iter().position(|x| x == o).unwrap()).collect::<Vec<_>>(), "key_on": c.key_on.map(|k| k.attr()), "key_on2": c.key_on2.map(|k| k.attr()), "dvalue": c.dvalue, "dtransparent": c.dtransparent, "entry": c.entry.name(), "attr": c.attr, "item": c.item, "trait": d, "observed": m}),
+                            detail: json!({"vector": c.vector, "config": cfg.name, "opts": c.opts.iter().map(|o| Opt::ALL.iter().position(|x| x == o).unwrap()).collect::<Vec<_>>(), "key_on": c.key_on.map(|k| k.attr()), "key_on2": c.key_on2.map(|k| k.attr()), "dvalue": c.dvalue, "dtransparent": c.dtransparent, "nogen": c.nogen, "entry": c.entry.name(), "attr": c.attr, "item": c.item, "trait": d, "observed": m}),
                             standalone: None,
                         }),
                         Ok(v) => {
@@ -740,7 +786,7 @@ pub fn run(ctx: &Ctx, rep: &mut Report) {
                                         symptom: "where-clause-differs-from-priority-rule".into(),
                                         atoms: mk_atoms(Some(d)),
                                         what: format!("{} impl #{} of {}: missing {:?}, unexpected {:?}", describe(cfg, c), n, d, missing, extra),
-                                        detail: json!({"vector": c.vector, "config": cfg.name, "opts": c.opts.iter().map(|o| Opt::ALL.iter().position(|x| x == o).unwrap()).collect::<Vec<_>>(), "key_on": c.key_on.map(|k| k.attr()), "key_on2": c.key_on2.map(|k| k.attr()), "dvalue": c.dvalue, "dtransparent": c.dtransparent, "entry": c.entry.name(), "attr": c.attr, "item": c.item, "trait": d, "impl_index": n, "expected_where": exp, "observed_where": got}),
+                                        detail: json!({"vector": c.vector, "config": cfg.name, "opts": c.opts.iter().map(|o| Opt::ALL.iter().position(|x| x == o).unwrap()).collect::<Vec<_>>(), "key_on": c.key_on.map(|k| k.attr()), "key_on2": c.key_on2.map(|k| k.attr()), "dvalue": c.dvalue, "dtransparent": c.dtransparent, "nogen": c.nogen, "entry": c.entry.name(), "attr": c.attr, "item": c.item, "trait": d, "impl_index": n, "expected_where": exp, "observed_where": got}),
                                         standalone: None,
                                     });
                                 }
